@@ -1,20 +1,25 @@
-(* PerRun.v (C20) — per-run obligations about the REGENERATED functions
+(* PerRunAug.v (C20) — per-run obligations about the REGENERATED functions
    (Gen/C20_Schema.v, Gen/C20_Builders.v, rewritten from the sources of
    sleap_nn/config/*.py and sleap_nn/train.py on every check run).  The
-   specifications in this file (option names, what "enabled" means, the
+   specifications in the PerRun*.v files (option names, what "enabled" means, the
    documented place of every builder parameter, the documented backbone presets
    and sizes) are hand-written from the docstrings; the proofs are by
    computation / case analysis on the generated terms, so a harmless rewrite of
-   the sources recomputes and a breaking one makes this file fail to compile.
+   the sources recomputes and a breaking one makes a file fail to compile.
 
-   Three clauses of the property are FALSE on the pinned tree (F12, F13, F16).
+   History and conventions.  Three clauses of the property were FALSE on the PINNED tree
+   (snapshot bc2d651, before the fixes): F12 (fixed by 072f0a2), F13 (95397fc), F16 (96319fe).
    Each is stated as a pair `..._full : status_b = true -> <clause>` /
    `..._refuted : status_b = false -> exists <witness>, <negation>` over a closed
    boolean computed from the generated model, plus the strongest unconditional
-   statement `..._partial`; the harness evaluates the status booleans, reports
-   which member of each pair is the live one and cross-checks it against the
-   implementation.  After a repair of the sources the same file compiles and the
-   `_full` members become the live ones. *)
+   statement `..._partial`.  On the CURRENT tree (HEAD contains the three fixes) every status
+   boolean is true, and the clause itself is stated UNCONDITIONALLY as `..._hold`
+   (aug_lists_hold, data_config_aug_lists_hold, convnext_sizes_hold, presets_convert_hold,
+   presets_and_heads_convert_hold): these are the live statements; they stop compiling if a
+   defect returns (and the oracle then reports the failing input as a VIOLATION — the `fixed:`
+   lines of known_findings.txt suppress nothing).  The `_refuted` / `_partial` members are about a
+   variant no code implements any more: they document the historic defect, are vacuously true
+   now (`status_b = false` is false), and keep the check able to name the witness of a regression. *)
 From Coq Require Import List String Ascii ZArith QArith Bool Arith Lia Lqa.
 From SV Require Import C20.CfgTree C20.Lemmas Gen.C20_Schema Gen.C20_Builders C20.Eval.
 From SV Require Import C20.PerRunBase.
@@ -269,7 +274,8 @@ Proof.
 Qed.
 Print Assumptions aug_from_reach.
 
-(* (c), strongest unconditional statement: for ALL lists (any length, any order,
+(* (c), strongest statement that held on the pinned tree as well (before fix 072f0a2; now
+   subsumed by aug_lists_hold): for ALL lists (any length, any order,
    repetitions allowed) of documented names in which the geometric list does
    not name two different affine presets, get_aug_config succeeds, every named
    option is enabled, and the untouched options keep their defaults. *)
@@ -292,7 +298,8 @@ Proof.
 Qed.
 Print Assumptions aug_lists_partial.
 
-(* (c), the full clause — live after a repair of F12 *)
+(* (c), the full clause as an implication from the status boolean (true on the current tree since
+   fix 072f0a2; unconditional form: aug_lists_hold below) *)
 Theorem aug_lists_full : forallb (fun P => aug_check P (aug_R P)) AFFINE_SETS = true ->   (* = aug_geo_full_b *)
   forall il gl,
   Forall (fun n => In n INTENSITY) il -> Forall (fun n => In n GEOMETRIC) gl ->
@@ -317,7 +324,8 @@ Proof.
 Qed.
 Print Assumptions aug_ok_b_false.
 
-(* (c), refutation — live on the pinned tree (F12): a list of documented
+(* (c), refutation — was live on the pinned tree bc2d651 (F12, before fix 072f0a2); on the current
+   tree its premise is false (historic; names the witness if the defect returns): a list of documented
    geometric names, found by the exhaustive search over ordered lists of
    distinct names up to length 4 on the GENERATED function, for which some named
    option is not enabled *)
@@ -437,3 +445,41 @@ Proof.
   exists s. split; [exact P | exact Rest].
 Qed.
 Print Assumptions data_config_aug_lists_full.
+
+(* ------------------------------------------------------- the live statements of clause (c) *)
+(* Unconditional, on the current tree (since fix 072f0a2): for ALL lists of documented names — any
+   length, any order, repetitions allowed — every named option is enabled.  The status boolean is
+   evaluated by the kernel's VM at Qed; if the defect returns this stops compiling. *)
+Theorem aug_lists_hold : forall il gl,
+  Forall (fun n => In n INTENSITY) il -> Forall (fun n => In n GEOMETRIC) gl ->
+  exists s, get_aug_config (aug_args (names_arg il) (names_arg gl)) = Ok s /\
+            (forall n, In n il -> int_enabled n s = true) /\
+            (forall n, In n gl -> geo_enabled n s = true) /\
+            untouched s = true.
+Proof.
+  assert (forallb (fun P => aug_check P (aug_R P)) AFFINE_SETS = true) as B
+    by (vm_cast_no_check (eq_refl true)).
+  exact (aug_lists_full B).
+Qed.
+Print Assumptions aug_lists_hold.
+
+Theorem data_config_aug_lists_hold : forall a r il gl, get_data_config a = Ok r ->
+  py_truthy (a "use_augmentations_train") = true ->
+  a "intensity_aug" = names_arg il -> a "geometry_aug" = names_arg gl ->
+  Forall (fun n => In n INTENSITY) il -> Forall (fun n => In n GEOMETRIC) gl ->
+  exists s, get ["augmentation_config"] r = Some s /\
+            (forall n, In n il -> int_enabled n s = true) /\
+            (forall n, In n gl -> geo_enabled n s = true) /\
+            untouched s = true.
+Proof.
+  intros a r il gl H T Ei Eg Hi Hg. pose proof (data_config_augmentation a r H) as D.
+  rewrite T, Ei, Eg in D. destruct D as [g [G P]].
+  destruct (aug_lists_hold il gl Hi Hg) as [s [Gs Rest]]. rewrite Gs in G. injection G as <-.
+  exists s. split; [exact P | exact Rest].
+Qed.
+Print Assumptions data_config_aug_lists_hold.
+
+(* non-vacuity: the list that was the F12 witness, in both orders *)
+Example ex_aug_lists_hold :
+  aug_ok_b ["contrast"] ["rotation"; "scale"] = true /\ aug_ok_b [] ["scale"; "rotation"; "translate"; "mixup"] = true.
+Proof. vm_compute. split; reflexivity. Qed.
